@@ -24,7 +24,8 @@ META = {
             'floor counter agree.nonempty_nonfull = agreements whose result is neither empty nor all source rows',
     'assumptions': [
         'SQLite only; other dialects are C02',
-        'one fixed schema S1 (Dept/Person/Passport/Tag/Item<-Gadget,Book) with required/optional scalars of six types, '
+        'one fixed schema S1 (Dept/Person/Passport/Tag/Item<-Gadget,Book, Course with composite key (name, semester), Grade with key '
+        '(person reference, subject)) with required/optional scalars of six types, '
         'many-to-one (required, optional, self), one-to-one, many-to-many, one inheritance tree, hybrid methods/properties',
         'conditional expressions are not emitted in generator form (decompiler shape K1 of property C03) and constant '
         'sub-expressions with compound receivers are not generated (ast2src parenthesis loss of property C04)',
@@ -42,6 +43,43 @@ SIZES = {
     'quick': dict(random=3000, datasets=10, depth=4),
     'thorough': dict(random=4000, datasets=20, depth=5),
 }
+
+
+def _rules(ctx):
+    """Deviation / shape rules of findings that are still OPEN: a fixed finding's rule must not explain anything."""
+    from vlib import qdiff
+    from collections import OrderedDict
+    dev = OrderedDict((k, v) for k, v in qdiff.DEVIATIONS.items() if ctx.is_open(v))
+    shp = OrderedDict((k, v) for k, v in qdiff.SHAPE_RULES.items() if ctx.is_open(v))
+    return dev, shp
+
+
+def vary_params(qdiff, p, rng):
+    """The same program (same source text -> same code object / query string) with other parameter values: other
+    members of the type's domain, sign changes, zero, other list lengths, and None for slice bounds."""
+    import re
+    from decimal import Decimal
+    from datetime import date, timedelta
+    new = {}
+    for k, v in p.params.items():
+        in_slice = re.search(r'\[[^\]\[]*\b%s\b[^\]\[]*:|\[[^\]\[]*:[^\]\[]*\b%s\b' % (k, k), p.src) is not None
+        if isinstance(v, bool): nv = not v
+        elif isinstance(v, int) or (v is None and in_slice):
+            pool = [0, 1, 2, 3, -1, -2, 5] if in_slice or re.search(r'\[%s\]' % k, p.src) else qdiff.DOMAINS['int'] + [-3, 4]
+            nv = rng.choice([x for x in pool if x != v])
+            if in_slice and rng.random() < 0.25: nv = None
+        elif isinstance(v, float): nv = rng.choice([x for x in qdiff.DOMAINS['float'] if x != v])
+        elif isinstance(v, str): nv = rng.choice([x for x in qdiff.DOMAINS['str'] if x != v])
+        elif isinstance(v, Decimal): nv = rng.choice([x for x in qdiff.DOMAINS['dec'] if x != v])
+        elif isinstance(v, date): nv = rng.choice([x for x in qdiff.DOMAINS['date'] if x != v])
+        elif isinstance(v, timedelta): nv = timedelta(days=rng.choice([x for x in (0, 1, 30, 365, -1, 7) if x != v.days]))
+        elif isinstance(v, (list, tuple)):
+            typ = 'str' if any(isinstance(i, str) for i in v) else 'int'
+            items = [rng.choice(qdiff.DOMAINS[typ]) for _ in range(rng.choice([0, 1, 2, 3]))]
+            nv = type(v)(items)
+        else: nv = v
+        new[k] = nv
+    return p.clone(params=new)
 
 
 def _book(ctx, env, v, prod_used, prod_agree, shrink_budget=60):
@@ -72,11 +110,11 @@ def _book(ctx, env, v, prod_used, prod_agree, shrink_budget=60):
         data0 = env.data
         def still_bad(p2, d2):
             env.load(d2, env.data_id)
-            return qdiff.judge(env, p2).outcome == 'disagree'
+            return qdiff.judge(env, p2, dev_rules=_rules(ctx)[0], shape_rules=_rules(ctx)[1]).outcome == 'disagree'
         try:
             p2, d2 = qdiff.shrink(env, p, data0, still_bad, budget=shrink_budget)
             env.load(d2, env.data_id)
-            v2 = qdiff.judge(env, p2)
+            v2 = qdiff.judge(env, p2, dev_rules=_rules(ctx)[0], shape_rules=_rules(ctx)[1])
             if v2.outcome != 'disagree': v2 = None
         except Exception:
             v2, d2 = None, data0
@@ -99,6 +137,9 @@ def run(ctx):
     schema = env.schema
     prod_used, prod_agree = {}, {}
     rng = ctx.rng
+    dev, shp = _rules(ctx)
+    J = lambda prog: qdiff.judge(env, prog, dev_rules=dev, shape_rules=shp)
+    ctx.extra['open_rules'] = sorted(dev.values()) + sorted(shp.values())
 
     # ---- part 1: bounded-exhaustive enumeration (<= 2 operators, reduced leaf set) on two fixed-seed data sets ------
     gen = qdiff.ProgramGen(schema, rng, max_depth=sz['depth'])
@@ -120,7 +161,14 @@ def run(ctx):
         if ctx.tier == 'quick' and n_ops >= 2: forms = [forms[(i + ctx.seed) % len(forms)]]   # rotate the form
         elif n_ops >= 2 and len(forms) > 2: del forms[(i + ctx.seed) % len(forms)]              # thorough: two of three
         for f in forms:
-            _book(ctx, env, qdiff.judge(env, f), prod_used, prod_agree)
+            _book(ctx, env, J(f), prod_used, prod_agree)
+    # the same enumeration (one operator) over an entity with a COMPOSITE primary key: whole key, part of the key, no key
+    for i, p in enumerate(gen.enumerate_small(ename='Course', var='c', per_type=1 if ctx.tier == 'quick' else 2, max_ops=1)):
+        if i % ctx.nshards != ctx.shard or qdiff.lint_program(p.src) is not None: continue
+        n_enum += 1
+        forms = qdiff.forms_of(p)
+        if ctx.tier == 'quick': forms = [forms[(i + ctx.seed) % len(forms)]]
+        for f in forms: _book(ctx, env, J(f), prod_used, prod_agree)
     ctx.count('exhaustive.programs', n_enum)
     ctx.count('exhaustive.skipped_lint', n_lint)
 
@@ -133,8 +181,18 @@ def run(ctx):
         ctx.count('datasets')
         for k in range(per_ds):
             p = gen.program()
-            for f in qdiff.forms_of(p):
-                _book(ctx, env, qdiff.judge(env, f), prod_used, prod_agree)
+            forms = qdiff.forms_of(p)
+            for f in forms: _book(ctx, env, J(f), prod_used, prod_agree)
+            if p.params:
+                # re-execute the SAME code objects / query strings with other parameter values (translator, SQL and
+                # result caches are warm now): every execution must equal python evaluation, not only the first one
+                for rep in range(2 if len(p.params) > 1 or k % 3 == 0 else 1):
+                    p2 = vary_params(qdiff, p, rng)
+                    for f in forms:
+                        f2 = f.clone(params=p2.params, prods=[])
+                        v = J(f2)
+                        ctx.count('reexecution.' + v.outcome)
+                        _book(ctx, env, v, prod_used, prod_agree)
     # ---- part 3: LIKE battery -- every hostile pattern x predicate x (constant | parameter | attribute) --------------
     like_strings = ['a%', 'ab', 'a_', 'a!', '!%', '%', '_', 'abc', 'a%b', 'a_b', 'xa%', '!', 'a!%', 'A%', '%%', '__', 'b']
     data = qdiff.dec(qdiff.gen_data(schema, ctx.subrng('like-data'), flavor='dense'))
@@ -158,8 +216,44 @@ def run(ctx):
                                   {'ent': 'Person', 'var': 'p', 'cond': cond}, ['like.' + tmpl.split('(')[0].replace('{0}', 'X').replace(' ', '_'), 'shape.filter'])
                 for f in qdiff.forms_of(p):
                     n_like += 1
-                    _book(ctx, env, qdiff.judge(env, f), prod_used, prod_agree)
+                    _book(ctx, env, J(f), prod_used, prod_agree)
     ctx.count('like_battery.cases', n_like)
+
+    # ---- part 4: membership battery -- x [not] in <subquery / collection / list> for every nullable attribute and optional
+    # reference of the schema, on data with missing values; each program is run twice with different parameters
+    data = qdiff.gen_data(schema, ctx.subrng('member-data', ctx.shard), flavor='sparse')
+    env.load(data, 'MEMBER')
+    n_mem = 0
+    pairs = []          # (element expression over y, entity of y, left expression over x, entity of x)
+    for e in schema.ents.values():
+        for a in e.own_attrs:
+            if a.is_ref and a.kind == 'opt' and a.reverse.is_set is not None and not (a.reverse.is_ref and a.reverse.kind == 'req'):
+                pairs.append(('y.%s' % a.name, e.name, 'x', a.typ))                       # entity vs optional reference
+                for b in schema.ents[a.typ].own_attrs:
+                    if b.is_ref and b.typ == a.typ and b.kind == 'opt': pairs.append(('y.%s' % a.name, e.name, 'x.%s' % b.name, a.typ))
+            if a.is_scalar and a.nullable and a.typ in ('int', 'str'):
+                for e2 in schema.ents.values():
+                    for b in e2.own_attrs:
+                        if b.is_scalar and b.typ == a.typ and b.kind != 'pk' and (e2.name, b.name) != (e.name, a.name) and len(pairs) % 3 == 0:
+                            pairs.append(('y.%s' % a.name, e.name, 'x.%s' % b.name, e2.name))
+    mrng = ctx.subrng('member', ctx.shard)
+    for i, (elt, ye, left, xe) in enumerate(pairs):
+        if i % ctx.nshards != ctx.shard % max(len(pairs), 1) and ctx.nshards > 1 and i % ctx.nshards != ctx.shard: continue
+        for neg in ('not in', 'in'):
+            for wrap in ('select(%s)', '(%s)'):
+                for extra in ('', ' if y.id != a0' if 'id' in schema.ents[ye].attrs else ''):
+                    if extra == '' and wrap == '(%s)' and neg == 'in': continue
+                    cond = '%s %s %s' % (left, neg, wrap % ('%s for y in %s%s' % (elt, ye, extra)))
+                    prm = {'a0': 1} if extra else {}
+                    p = qdiff.Program('x for x in %s if %s' % (xe, cond), prm, 'gen', [], {'ent': xe, 'var': 'x', 'cond': cond},
+                                      ['member.%s.%s' % ('ref' if left == 'x' or '.' in left and not schema.ents[xe].attrs[left.split('.')[1]].is_scalar else 'scalar', neg.replace(' ', '')), 'shape.filter'])
+                    for f in qdiff.forms_of(p):
+                        n_mem += 1
+                        _book(ctx, env, J(f), prod_used, prod_agree)
+                        if prm:
+                            n_mem += 1
+                            _book(ctx, env, J(f.clone(params={'a0': mrng.choice([2, 3, 0, -1])}, prods=[])), prod_used, prod_agree)
+    ctx.count('member_battery.cases', n_mem)
 
     ctx.extra['prod_used'] = prod_used
     ctx.extra['prod_agree'] = prod_agree
@@ -168,6 +262,8 @@ def run(ctx):
     ctx.extra['executed_on'] = ['sqlite']
     ctx.floor('agree.nonempty_nonfull', 1000)
     ctx.floor('outcome.agree', 3000)
+    ctx.floor('reexecution.agree', 300)
+    ctx.floor('member_battery.cases', 100)
 
 
 def replay(ctx, witness):
@@ -175,7 +271,8 @@ def replay(ctx, witness):
     env = qdiff.get_env('S1')
     env.load(witness['data'], 'replay')
     p = qdiff.Program.from_json(witness['program'])
-    v = qdiff.judge(env, p)
+    dev, shp = _rules(ctx)
+    v = qdiff.judge(env, p, dev_rules=dev, shape_rules=shp)
     print('replay outcome:', v.outcome, v.findings, v.detail)
     if v.outcome == 'disagree': ctx.violation(v.witness(env), mechanism='unclassified-disagreement')
     elif v.outcome == 'known':
